@@ -18,6 +18,7 @@ inductive Kind where
   | startSasl      -- not a message: the permission to enter a SASL state (`on_sasl_cap`)
   | ackPerm        -- not a message: the permission to raise the ghost `saslAcked` (CAP ACK)
   | connPerm       -- not a message: the permission to open a new socket at once (`reconnect(wait=False)`)
+  | authPerm       -- not a message: the permission to raise `sasl_authenticated` (903)
 deriving DecidableEq, Repr
 
 def Out.kind : Out → Kind
@@ -108,8 +109,8 @@ inductive Move (cfg : Cfg) (K : Kind → Bool) : Abs → Abs → Prop
       (hm : missing cfg a = false) : Move cfg K a { a with fsm := .CONNECTED }
   | setAfterConnect (a : Abs) (h : a.fsm = .CONNECTED) (hm : missing cfg a = false) : Move cfg K a { a with afterConnect := true }
   | shutdown (a : Abs) : Move cfg K a { a with fsm := .SHUTTING_DOWN }
-  /-- do903: the server says the authentication succeeded -/
-  | authOk (a : Abs) : Move cfg K a { a with saslAuth := true }
+  /-- do903: the server says the authentication succeeded; honoured only inside a SASL state -/
+  | authOk (a : Abs) (h : isSaslState a.fsm = true) (hK : K .authPerm = true) : Move cfg K a { a with saslAuth := true }
   /-- a CAP ACK leaves `sasl` acknowledged -/
   | ackGain (a : Abs) (hK : K .ackPerm = true) : Move cfg K a { a with ackSasl := true, acked := true }
   /-- CAP DEL removes `sasl` from the acknowledged set -/
@@ -158,7 +159,7 @@ theorem Move.mono {cfg : Cfg} {K K' : Kind → Bool} (hK : ∀ k, K k = true →
   case endMotd h hm => exact .endMotd _ h hm
   case setAfterConnect h hm => exact .setAfterConnect _ h hm
   case shutdown => exact .shutdown _
-  case authOk => exact .authOk _
+  case authOk h hp => exact .authOk _ h (hK _ hp)
   case ackGain h => exact .ackGain _ (hK _ h)
   case ackLose => exact .ackLose _
   case abort => exact .abort _
